@@ -633,6 +633,10 @@ def install(w):
     def _find_tuple(ex, st, args):
         return find_like("find", ex, st, args[0], [exp.Tuple], True)
 
+    @sf("find_clone")
+    def _find_clone(ex, st, args):
+        return find_like("find", ex, st, args[0], [exp.Clone], True)
+
     @sf("find_table")
     def _find_table(ex, st, args):
         return find_like("find", ex, st, args[0], [exp.Table], True)
